@@ -72,21 +72,23 @@ theorem glue_needs_space : lexSyms 8 (unSpellChars .Minus ++ unSpellChars .Minus
 
 /-- **paren_rule_matches_grammar.** For every child position of unary, binary and conditional nodes: if
 `format_subexpression` prints the child without parentheses, the child's production level is at most the level
-at which the parser reads that position — except the middle operand of a conditional, where only `≤ 14` holds
-although the parser reads it with `expr_p13` (see `ternary_middle_assignment_breaks`). -/
+at which the parser reads that position (the levels of the conditional's operands are the ones extracted from
+`ternary_right`: the middle operand is read at the assignment level since f3b64c8). -/
 theorem paren_rule_matches_grammar :
-    (∀ op (x : Expr), isPostfix op = false → needParen x.prec (unPrec op) prefixOperandSide = false → x.lvl ≤ 2) ∧
-    (∀ op (x : Expr), isPostfix op = true → needParen x.prec (unPrec op) postfixOperandSide = false → x.lvl ≤ 1) ∧
+    (∀ op (x : Expr), isPostfix op = false → needParen x.prec (unPrec op) prefixOperandSide = false → x.lvl ≤ prefixLevel) ∧
+    (∀ op (x : Expr), isPostfix op = true → needParen x.prec (unPrec op) postfixOperandSide = false → x.lvl ≤ postfixLevel) ∧
     (∀ op (x : Expr), needParen x.prec (binPrec op) binLeftSide = false →
-      (binLevel op ≠ 14 → x.lvl ≤ binLevel op) ∧ (binLevel op = 14 → x.lvl ≤ 12)) ∧
+      (binLevel op ≠ assignLevel → x.lvl ≤ binLevel op) ∧ (binLevel op = assignLevel → x.lvl ≤ ternaryLevel - 1)) ∧
     (∀ op (x : Expr), needParen x.prec (binPrec op) binRightSide = false →
-      (binLevel op ≠ 14 → x.lvl ≤ binLevel op - 1) ∧ (binLevel op = 14 → x.lvl ≤ 14)) ∧
-    (∀ x : Expr, needParen x.prec precTernaryConditional ternCondSide = false → x.lvl ≤ 12) ∧
-    (∀ x : Expr, needParen x.prec precTernaryConditional ternTrueSide = false → x.lvl ≤ 14) ∧
-    (∀ x : Expr, needParen x.prec precTernaryConditional ternFalseSide = false → falseIsAssignment x = false → x.lvl ≤ 13) :=
+      (binLevel op ≠ assignLevel → x.lvl ≤ binLevel op - 1) ∧ (binLevel op = assignLevel → x.lvl ≤ assignLevel)) ∧
+    (∀ x : Expr, needParen x.prec precTernaryConditional ternCondSide = false → x.lvl ≤ ternaryLevel - 1) ∧
+    (∀ x : Expr, needParen x.prec precTernaryConditional ternTrueSide = false → x.lvl ≤ ternMiddleLevel) ∧
+    (∀ x : Expr, needParen x.prec precTernaryConditional ternFalseSide = false → falseIsAssignment x = false →
+      x.lvl ≤ ternLastLevel) :=
   ⟨pos_prefix, pos_postfix, fun op x h => ⟨fun h14 => ((pos_binL op x h).1 h14).1, (pos_binL op x h).2⟩,
    pos_binR, pos_ternC, pos_ternA, fun x h hf => by
      have := pos_ternB x h
+     show x.lvl ≤ 13
      rcases Nat.lt_or_ge x.lvl 14 with h1 | h1
      · omega
      · have := this.2 (by omega); rw [hf] at this; cases this⟩
@@ -101,9 +103,8 @@ def Stops (rest : List Tok) : Prop :=
 the conditional, member access, array subscript and calls (without template arguments), nested to any depth: the tokens of the printed text, followed by anything that ends an
 expression, are read by the parser model at the top level (`expr_p15`, terminator `Standard`) as exactly the tree.
 
-Partial, because `WF` excludes exactly: (1) literals that do not print as one token reading back as themselves
-(negative values, `-0.0`, NaN, integral `Float16`/`Float64`, … — `LitOk`), (2) an assignment as the *middle* operand of
-a conditional — where the full statement is false, `ternary_middle_assignment_breaks`. Casts, `sizeof`, template
+Partial, because `WF` excludes literals that do not print as one token reading back as themselves (negative values,
+`-0.0`, NaN, … — `LitOk`) — for those the full statement is false on the real code (known findings). Casts, `sizeof`, template
 arguments and braced initialisers are not in the model at all (so neither is `expr_p1_call`'s attempt to read
 `<…>(` as template arguments, which breaks `a < b > (c)` on the real code — a known finding). -/
 theorem roundtrip_expr_partial (e : Expr) (hwf : WF e) (rest : List Tok) (hrest : Stops rest) :
@@ -140,22 +141,16 @@ def sample : Expr :=
         (.un .LogicalNot (.call (.mem (.id "w") "f") (.cons (.tern (.id "u") (.id "v") (.id "w")) (.cons (.id "k") .nil))))))
 
 theorem sample_wf : WF sample := by
-  simp [sample, WF, WFA, Expr.lvl, binLevel, levelOfPrec, binPrec]
+  simp [sample, WF, WFA]
 example : ReadsBack sample [] := roundtrip_expr_partial sample sample_wf [] (Or.inl rfl)
 
-/-- the excluded conditional shape -/
+/-- the conditional shape that did not read back before f3b64c8 (`expr_p13` read the middle operand with `expr_p13`) -/
 def ternaryMiddleAssignment : Expr :=
   .tern (.id "c") (.bin .Assignment (.id "b") (.id "x")) (.id "a")
 
-/-- **Negation of the full statement, with witness.** `c ? b = x : a` (the tree a parser produces for
-`c ? (b = x) : a`) is printed without parentheses and the parser model does not read the text back:
-it stops in front of `?`. (Replayed on the real code: known finding `rejected-by-parser … (tern …)`.) -/
-theorem ternary_middle_assignment_breaks :
-    ¬ WF ternaryMiddleAssignment ∧
-    parseAll .Standard (toks (fmtExpr ternaryMiddleAssignment)) =
-      some (.id "c", [.p .QuestionMark, .id "b", .p .Equals, .id "x", .p .Colon, .id "a"]) := by
-  constructor
-  · simp [ternaryMiddleAssignment, WF, Expr.lvl, binLevel, levelOfPrec, binPrec]
-  · rfl
+/-- `c ? b = x : a` now round-trips: by the theorem, and by evaluating the parser model on the printed tokens -/
+example : ReadsBack ternaryMiddleAssignment [] :=
+  roundtrip_expr_partial ternaryMiddleAssignment (by simp [ternaryMiddleAssignment, WF]) [] (Or.inl rfl)
+example : parseAll .Standard (toks (fmtExpr ternaryMiddleAssignment)) = some (ternaryMiddleAssignment, []) := rfl
 
 end RsslVerif.Thm.C09
